@@ -374,6 +374,10 @@ func castOracles(rep *streamReport, props map[string]bool, t castTarget, v inter
 			}
 		}
 	}
+	// ---- C14: timestamps are whole seconds (floor), time values render with their own offset (c14_oracles.go) ----
+	if props["C14"] {
+		c14More(rep, t, v, o)
+	}
 	// ---- C14 (cast level): explicit offsets, integer seconds ----
 	if props["C14"] && !o.panicked && t.name == "time.Time" {
 		switch x := v.(type) {
